@@ -1,7 +1,7 @@
 from props_common import BASE_TB
 
 PROP = {
-    "modules": ["YorkieModel.Props.C01"],
+    "modules": ["YorkieModel.Props.C01", "YorkieModel.Props.C01Text"],
     "engines": [
         # oracle-only: replicas that edit before SetActor/Attach (known finding c01-pre-attach-edit)
         {"name": "crdtpre", "quick": {"n": 240, "workers": 4}, "thorough": {"n": 20000, "workers": 8}},
@@ -15,10 +15,10 @@ PROP = {
         "global freshness of newly issued tickets is a step precondition of the system model; it is the content of C06 (ticket_unique)",
         "Primitive.Marshal() text is taken from the implementation as an opaque token (the model stores the marshalled form of primitives)",
     ],
-    "level_text": "Machine-checked strong convergence for objects, arrays (insert, delete, move, set-by-index) and counters with GC off: for any number of clients, any program and any interleaving of edit/push/pull steps, every replica equals the fold of the server log prefix it has seen plus its own pending operations, quiescent replicas are equal heaps and marshal identically, and the server rebuild never meets a failing operation (Convergence.lean instantiated through 16 lemma files proving commutation of every pair of independent operations). Tied to the code per operation: every operation of every change of generated multi-replica histories is replayed by the model and Marshal() compared on every replica after every step.",
-    "level_note": "Trusted: Lean kernel; the hand-written model as far as the crdt engine exercises it; the delivery discipline (C04) and ticket uniqueness (C06) enter as the system model's step rules. Not covered by a theorem: text (correspondence + C07 splice theorems only), tree, histories with GC on (C03), documents edited before Attach (known finding of C01/C06: SetActor does not rewrite identities).",
+    "level_text": "Machine-checked strong convergence for objects, arrays (insert, delete, move, set-by-index) and counters with GC off: for any number of clients, any program and any interleaving of edit/push/pull steps, every replica equals the fold of the server log prefix it has seen plus its own pending operations, quiescent replicas are equal heaps and marshal identically, and the server rebuild never meets a failing operation (Convergence.lean instantiated through 16 lemma files proving commutation of every pair of independent operations). Tied to the code per operation: every operation of every change of generated multi-replica histories is replayed by the model and Marshal() compared on every replica after every step. Text (Props/C01Text.lean): the same system theorem instantiated on a character-level abstraction of the block list (text_laws, text_converge_quiescent), tied to the block model of Model/Text.lean by text_enabled_means_call_ok and lifted to replicas that hold block lists and run the Go calls in their own arrival order (text_block_replicas_converge: equal abs, visible text, String() and Marshal(); text_block_no_call_fails); removedAt_diverges shows the block list itself (tombstone tickets) does not converge, only what is observable.",
+    "level_note": "Trusted: Lean kernel; the hand-written model as far as the crdt engine exercises it; the delivery discipline (C04) and ticket uniqueness (C06) enter as the system model's step rules. Not covered by a theorem: text changes carrying several Text operations (one Text op per change in the theorem), tree (C19), histories with GC on (C03), documents edited before Attach (known finding of C01/C06: SetActor does not rewrite identities).",
     "technique": "Lean 4 proof (pairwise commutation + reorder lemma + system invariant) + op-fed differential replay",
-    "partial": ["text: model + correspondence + local splice theorems, no convergence theorem yet",
+    "partial": ["text: convergence proved for one Text operation per change, a single Text element, no GC, anchors (t, offset 0) with t != head excluded by Pre (split-order dependent in Go); the ghost fields seq/deps are argued, not proved, to annotate every real history",
                 "tree (structure-preserving subset): not modelled",
                 "GC on: see C03"],
     "not_modelled": ["dedup counters (HLL)", "undo/redo produced operations (C14/C15)", "edits made before Attach"],
